@@ -1,21 +1,26 @@
 import Juniper.Model.Group
+import Juniper.Proofs.SkeletonGroup
 /-! Helper lemmas for C17, thread-local part: the worker loops in closed form (this is where the
 regenerated `select` tables, arm bodies, loop-shape facts and channel capacities are consumed), what a
 thread step does to the lock / wait-group accounting, and the per-thread invariant. -/
 namespace Juniper.Proofs.GroupLocal
 open Juniper.Facts Juniper.Gen.Group Juniper.Model.Group
+open Juniper.Proofs.SkeletonGroup
 
-theorem loopOf_doOnce : loopOf .doOnce = { arms := [], checksCtxFirst := false, resetAfterSelect := false, ok := true } := by
-  decide
+/-! The closed forms of the four registration kinds hold for bodies whose control skeleton is the one
+`threadStep` hard-wires (`Proofs/SkeletonGroup.lean`): one `g.spawn(func …)` around one loop that runs
+`f` itself, the trigger function returned. -/
+theorem loopOf_doOnce : loopOf .doOnce = { arms := [], checksCtxFirst := false, resetAfterSelect := false, ok := true } :=
+  under pskelGroupDo_tie (by decide)
 theorem loopOf_trigger : loopOf .trigger =
     { arms := [(.recv "g.ctx.Done()", .exit), (.recv "c", .fall)], checksCtxFirst := true,
-      resetAfterSelect := false, ok := true } := by decide
+      resetAfterSelect := false, ok := true } := under pskelGroupTrigger_tie (by decide)
 theorem loopOf_periodic : loopOf .periodic =
     { arms := [(.recv "g.ctx.Done()", .exit), (.recv "t.C", .fall)], checksCtxFirst := true,
-      resetAfterSelect := true, ok := true } := by decide
+      resetAfterSelect := true, ok := true } := under pskelGroupPeriodic_tie (by decide)
 theorem loopOf_pot : loopOf .pot =
     { arms := [(.recv "g.ctx.Done()", .exit), (.recv "t.C", .reset), (.recv "c", .stopDrainReset)],
-      checksCtxFirst := true, resetAfterSelect := false, ok := true } := by decide
+      checksCtxFirst := true, resetAfterSelect := false, ok := true } := under pskelGroupPeriodicOrTrigger_tie (by decide)
 
 theorem loopOf_ok (k : Kind) : (loopOf k).ok = true := by
   cases k
@@ -169,7 +174,7 @@ def StepFacts (v : View) (t t' : Thread) (e : Eff) : Prop :=
 
 theorem threadStep_facts {v : View} {t t' : Thread} {c : Nat} {off : Int} {e : Eff}
     (h : threadStep v t c off = some (t', e)) : StepFacts v t t' e := by
-  have hadd : spawnAddUnderRLock = true := by decide
+  have hadd : spawnAddUnderRLock = true := under pskelGroupSpawn_tie (by decide)
   cases hpc : t.pc
   case atSelect =>
     obtain ⟨he, hc⟩ := atSelect_step hpc h
